@@ -24,7 +24,7 @@ and `evalIso_struct` checks BY `rfl` that the generated definition is built from
 of the Rust (hence of the generated text) breaks that `rfl`.  Nothing here evaluates field arithmetic:
 the proofs are generic in the coefficient type `F` (only `+ * 0 sq`), no ring law is used.
 
-Core Lean only; axioms: `propext`, `Quot.sound` at most.
+Core Lean only; axioms: `propext`, `Classical.choice`, `Quot.sound` (via `simp` / `omega` / `by_cases`).
 -/
 import PP.Gen.Iso
 import PP.Proofs.GenArith
@@ -383,7 +383,9 @@ def afterInit (pt : Jac F) (coeffs : List (List F)) (zpows : List F) : Option (J
     (outerBody coeffs zpows pt.x)
   tailPart pt pt.y pt.z zpows tmp mapvals
 
-/-- the generated definition consists of exactly the pieces restated in this file -/
+set_option maxHeartbeats 4000 in
+/-- the generated definition consists of exactly the pieces restated in this file (the heartbeat limit only
+    makes the failure quick when the generated text has changed) -/
 theorem evalIso_struct (pt : Jac F) (coeffs : List (List F)) : I.evalIso pt coeffs = (do
     let zpows := List.replicate 15 (0 : F)
     let zpows ← I.setIdx zpows 0 pt.z
